@@ -185,7 +185,7 @@ static const char *ECHO_SRC =
   "}\n"
   "@kernel void echob(long *oi, bool b) {\n"
   "  for (int i = 0; i < 1; ++i; @tile(1, @outer, @inner)) {\n"
-  "    oi[0] = b ? 1 : 0; oi[1] = *((const unsigned char*) &b);\n"
+  "    oi[0] = b ? 1 : 0; oi[1] = b;\n"
   "  }\n"
   "}\n";
 
